@@ -1,5 +1,6 @@
 import FparserModel.Wire
 import FparserModel.Expr
+import FparserModel.ExprCost
 
 /-!
 # driver commands of model M-C (expression chain)
@@ -18,6 +19,9 @@ import FparserModel.Expr
               reply = fully parenthesised S-expression of the tree
                 `@n` | `@.n` | `(paren E)` | `(un OP E)` | `(bin OP L R)`   (OP upper-case)
               or `reject`; `badtoken` when a word is not a token.
+`exprcost`    field1 = token list as for `expr`, optional field2 = class name. reply =
+              `<chainCalls> <parseCalls> <tree|reject>`: the number of `Base.__new__` calls the
+              model predicts for the 13 chain classes (real class table / model table).
 `exprlevels`  reply = the model's level table, rows separated by `;`
               `Class kind opclass lhs rhs next excl`.
 -/
@@ -38,6 +42,13 @@ def run (k : Lv) (line : String) : String :=
 
 def ok (r : String) : String := "OK\t" ++ enc r
 
+def runCost (k : Lv) (line : String) : String :=
+  match toksOfLine line with
+  | none => "badtoken"
+  | some ts =>
+    toString (chainCalls k ts) ++ " " ++ toString (parseCalls k ts) ++ " " ++
+      (match parse k ts with | some _ => "tree" | none => "reject")
+
 /-- `args` are the raw (hex) fields of the request; the result is the complete reply line;
 `none` = not a command of this model -/
 def handle (cmd : String) (args : List String) : Option String :=
@@ -46,6 +57,11 @@ def handle (cmd : String) (args : List String) : Option String :=
   | "expr", [line, cls] =>
     match lvOfName cls with
     | some k => some (ok (run k line))
+    | none => some (ok "badclass")
+  | "exprcost", [line] => some (ok (runCost .expr line))
+  | "exprcost", [line, cls] =>
+    match lvOfName cls with
+    | some k => some (ok (runCost k line))
     | none => some (ok "badclass")
   | "exprlevels", _ => some (ok (levelsText levels))
   | _, _ => none
